@@ -954,6 +954,12 @@ func callBuiltin(caller *frame, callpos token.Pos, fn *ssa.Builtin, args []value
 			return arg0
 		}
 		// append([]T, ...[]T) []T
+		if i := caller.i; i.frozen != nil {
+			a0 := args[0].([]value)
+			if len(a0) < cap(a0) && len(args[1].([]value)) > 0 && i.frozen[&a0[:cap(a0)][len(a0)]] {
+				i.sharedWrite("append into shared backing array", caller)
+			}
+		}
 		return append(args[0].([]value), args[1].([]value)...)
 
 	case "copy": // copy([]T, []T) int or copy([]byte, string) int
@@ -961,6 +967,12 @@ func callBuiltin(caller *frame, callpos token.Pos, fn *ssa.Builtin, args []value
 		if _, ok := src.(string); ok {
 			params := fn.Type().(*types.Signature).Params()
 			src = conv(params.At(0).Type(), params.At(1).Type(), src)
+		}
+		if i := caller.i; i.frozen != nil {
+			d := args[0].([]value)
+			if len(d) > 0 && len(src.([]value)) > 0 && i.frozen[&d[0]] {
+				i.sharedWrite("copy into shared slice", caller)
+			}
 		}
 		return copy(args[0].([]value), src.([]value))
 
@@ -971,6 +983,9 @@ func callBuiltin(caller *frame, callpos token.Pos, fn *ssa.Builtin, args []value
 	case "delete": // delete(map[K]value, K)
 		switch m := args[0].(type) {
 		case *omap:
+			if caller.i.frozenMap != nil && caller.i.frozenMap[m] {
+				caller.i.sharedWrite("map delete", caller)
+			}
 			m.delete(caller.i, args[1])
 		default:
 			panic(fmt.Sprintf("illegal map type: %T", m))
